@@ -570,16 +570,26 @@ def gen_ops(seed: int, run: int, tier: str, with_faults: bool) -> list[dict]:
     reqs += [r.choice(["fx::c15::net", "fx::c15::outer", "fx::c15::resconv_nchw", "fx::c15::cf_scan"])]
     paths = ["a.onnx", "sub/dir/b.onnx", "rel:c.onnx"]
     ops: list[dict] = [{"op": "chdir", "to": "root"}] if r.random() < 0.4 else []
+    sidecar_paths: set[str] = set()
     for _ in range(n_ops):
         u = r.random()
         if u < 0.62:
             op: dict = {"op": "export_file", "req": r.choice(reqs), "mode": r.choice(["standard", "standard", "web"]), "path": r.choice(paths)}
-            if with_faults and r.random() < 0.3:
-                kind = r.choice(["open_error", "torn_write", "torn_write", "remove_error", "getsize_error", "makedirs_error"])
-                f: dict = {"kind": kind, "n": r.choice([0, 0, 1, 2]), "exc": r.choice(["OSError", "OSError", "SimInterrupt"])}
+            if with_faults and r.random() < 0.4:
+                # place the fault where this export will actually do I/O: a sidecar can only be removed /
+                # measured if an earlier operation of this history left one next to the path
+                has_sidecar = op["path"] in sidecar_paths
+                kinds = ["open_error", "torn_write", "torn_write"] + (["makedirs_error"] if not op["path"].startswith("rel:") else [])
+                if has_sidecar:
+                    kinds += ["remove_error", "remove_error", "getsize_error"]
+                kind = r.choice(kinds)
+                n = r.choice([0, 0, 1, 2]) if kind in ("open_error", "torn_write") else 0
+                f: dict = {"kind": kind, "n": n, "exc": r.choice(["OSError", "OSError", "SimInterrupt"])}
                 if kind == "torn_write":
                     f["m"] = r.choice([0, 1, 100, 4096, 524288, MIB - 1])
                 op["fault"] = f
+            if op["mode"] == "standard":
+                sidecar_paths.add(op["path"])
             ops.append(op)
         elif u < 0.70:
             ops.append({"op": "export_ir", "req": r.choice(reqs)})
@@ -589,6 +599,7 @@ def gen_ops(seed: int, run: int, tier: str, with_faults: bool) -> list[dict]:
             ops.append({"op": "mutate_ir", "which": r.randrange(4)})
         elif u < 0.92:
             ops.append({"op": "interfere", "path": r.choice(paths), "what": r.choice(["garbage", "empty"]), "n": r.choice([1, 4096, 2 * MIB]), "seed": r.getrandbits(16)})
+            sidecar_paths.add(ops[-1]["path"])
         else:
             ops.append({"op": "reload", "path": r.choice(paths)})
     for p in paths:
